@@ -848,3 +848,7 @@ V('c03-seen-only-answers', 'C03', 'C03.ADDRNSEC', QHF,
   more=[(QHF, "                elif not known_answers.suppresses(dns_address):\n                    answers.append(dns_address)", "                elif not known_answers.suppresses(dns_address):\n                    seen_types.add(dns_address.type)\n                    answers.append(dns_address)")])
 V('c03-nsec-without-answers', 'C03', 'C03.ADDRNSEC', QHF,
   "            if answers:\n                if missing_types:", "            if answers or missing_types:\n                if missing_types:")
+
+V('c15-twin-nested-shortcircuit', 'C15', 'C15.CONTAINERS', QHF,
+  "            if len(self._questions) == 1:\n                question = self._questions[0]\n                if question.type in _RESPOND_IMMEDIATE_TYPES:\n                    self._mcast_now.add(answer)\n                    continue",
+  "            if self._is_probe or (len(self._questions) == 1 and self._questions[0].type in _RESPOND_IMMEDIATE_TYPES):\n                self._mcast_now.add(answer)\n                continue", expect='silent')
